@@ -112,6 +112,8 @@ def spec_valid(dt, v, regex_hard=None):
             raw = base64.b64decode(v, validate=True)
         except Exception:
             return False
+        if base64.b64encode(raw).decode('ascii') != v:
+            return False          # xs:base64Binary is canonical: the unused bits of the last character before the padding are zero
         limit = int(p[1])
         return len(raw) >= 1 and (limit == 0 or len(raw) <= limit)
     if fam == 'string':
